@@ -44,9 +44,13 @@ def handle(req):
 
 
 def main():
+    # the protocol owns the original stdout; anything the code under test prints goes to stderr
+    proto = os.fdopen(os.dup(1), 'w')
+    os.dup2(2, 1)
+    sys.stdout = sys.stderr
     env.install_real()
-    sys.stdout.write(json.dumps({'ready': True, 'hashes': env.source_hashes()}) + '\n')
-    sys.stdout.flush()
+    proto.write(json.dumps({'ready': True, 'hashes': env.source_hashes()}) + '\n')
+    proto.flush()
     for line in sys.stdin:
         line = line.strip()
         if not line:
@@ -57,8 +61,8 @@ def main():
         except BaseException as e:   # never die silently
             resp = {'failed': [], 'obs': None, 'assume_violated': None,
                     'error': 'server: ' + ''.join(traceback.format_exception(type(e), e, e.__traceback__))[-3000:]}
-        sys.stdout.write(json.dumps(resp) + '\n')
-        sys.stdout.flush()
+        proto.write(json.dumps(resp) + '\n')
+        proto.flush()
 
 
 if __name__ == '__main__':
